@@ -19,7 +19,8 @@ pub struct LeafPlan {
 #[derive(Clone, Debug)]
 pub enum Shape {
     /// `plain`: the children are handles without drop glue (`PlainFut`), whose drops cannot be observed
-    Flat { fam: Family, cont: Cont, n: usize, plain: bool },
+    /// `unit`: the children of a future family resolve to a zero-sized output (`Unit`)
+    Flat { fam: Family, cont: Cont, n: usize, plain: bool, unit: bool },
     Nested { kind: u32 },
     /// randomly generated tree over type-erased children (dynnest.rs)
     Dyn { tree: crate::dynnest::DT },
@@ -60,12 +61,20 @@ impl Plan {
     }
     pub fn describe(&self) -> String {
         match &self.shape {
-            Shape::Flat { fam, cont, n, plain } => format!(
+            Shape::Flat { fam, cont, n, plain, unit } => format!(
                 "{} over {} of {} children{}",
                 fam.name(),
                 cont.name(),
                 n,
-                if *plain && fam.is_stream() { " (zero-sized items)" } else if *plain { " (child handles without drop glue)" } else { "" }
+                if *plain && fam.is_stream() {
+                    " (zero-sized items)"
+                } else if *plain {
+                    " (child handles without drop glue)"
+                } else if *unit {
+                    " (zero-sized outputs)"
+                } else {
+                    ""
+                }
             ),
             Shape::Nested { kind } => format!("nested shape {}", crate::nested::name(*kind)),
             Shape::Dyn { tree } => format!("generated nested shape {}", crate::dynnest::describe(tree)),
@@ -288,7 +297,7 @@ pub fn flat(w: &mut World, p: &Profile) -> Plan {
         if fam == Family::WaitUntilS && !small() && w.ch.draw("wait.long", 20) == 19 {
             inner = LeafPlan { script: Vec::new(), term: Terminal::Forever };
             return Plan {
-                shape: Shape::Flat { fam, cont: Cont::Tuple, n: 2, plain: false },
+                shape: Shape::Flat { fam, cont: Cont::Tuple, n: 2, plain: false, unit: false },
                 leaves: vec![inner, deadline],
                 cancel_at: None,
                 max_yields: 260 + w.ch.draw("wait.long.len", 80),
@@ -302,7 +311,7 @@ pub fn flat(w: &mut World, p: &Profile) -> Plan {
             script.push(Step::Ready { err: false });
             deadline = LeafPlan { script, term: Terminal::Finished };
             return Plan {
-                shape: Shape::Flat { fam, cont: Cont::Tuple, n: 2, plain: false },
+                shape: Shape::Flat { fam, cont: Cont::Tuple, n: 2, plain: false, unit: false },
                 leaves: vec![inner, deadline],
                 cancel_at: None,
                 max_yields: len + 1_000_000,
@@ -310,7 +319,7 @@ pub fn flat(w: &mut World, p: &Profile) -> Plan {
             };
         }
         return Plan {
-            shape: Shape::Flat { fam, cont: Cont::Tuple, n: 2, plain: false },
+            shape: Shape::Flat { fam, cont: Cont::Tuple, n: 2, plain: false, unit: false },
             leaves: vec![inner, deadline],
             cancel_at: None,
             max_yields: u32::MAX,
@@ -460,7 +469,9 @@ pub fn flat(w: &mut World, p: &Profile) -> Plan {
         && cont != Cont::Ext2
         && n <= 12
         && w.ch.draw("leaf.plain", 8) == 7;
-    Plan { shape: Shape::Flat { fam, cont, n, plain }, leaves, cancel_at, max_yields, distinguished }
+    // ... and one future-family run in eight (when not `plain`) has children with a zero-sized output type
+    let unit = !plain && !fam.is_stream() && cont != Cont::Ext2 && n <= 12 && w.ch.draw("leaf.unit", 8) == 7;
+    Plan { shape: Shape::Flat { fam, cont, n, plain, unit }, leaves, cancel_at, max_yields, distinguished }
 }
 
 pub fn plan(w: &mut World, prop: &str) -> Plan {
